@@ -11,7 +11,12 @@ package main
 
 import (
 	"bytes"
+	"crypto/aes"
+	"crypto/cipher"
+	"crypto/hmac"
+	"crypto/sha256"
 	"fmt"
+	"math/big"
 	"math/rand"
 
 	otr3 "github.com/coyim/otr3"
@@ -691,6 +696,253 @@ func (g *gen) thirdPartyUnderFailure(w *world, idx int) {
 	g.c01check(w, all, where+", then traffic")
 }
 
+// ---------- a hand-made initiator ----------
+//
+// A peer M that owns a DSA key (test key 2) and writes its key exchange messages itself, so that it can
+// commit to and reveal ANY value in place of g^x - something the library cannot be driven to do
+// (p-1 is not a power of 2). M cannot know the secret exponent y of the victim, but for the values
+// used here the "shared secret" (g^x)^y is one of at most two publicly computable numbers, and M
+// simply tries them in turn: a Reveal Signature message that is refused leaves the victim waiting.
+
+func aesCtrZero(key, data []byte) []byte {
+	blk, err := aes.NewCipher(key)
+	if err != nil {
+		panic(err)
+	}
+	out := make([]byte, len(data))
+	cipher.NewCTR(blk, make([]byte, aes.BlockSize)).XORKeyStream(out, data)
+	return out
+}
+
+func hmac256(key, data []byte) []byte {
+	m := hmac.New(sha256.New, key)
+	m.Write(data)
+	return m.Sum(nil)
+}
+
+func akeHeader(version int, typ byte, sender, receiver uint32) []byte {
+	hdr := []byte{0, byte(version), typ}
+	if version == 3 {
+		hdr = otr3.AppendWord(otr3.AppendWord(hdr, sender), receiver)
+	}
+	return hdr
+}
+
+// the keys both sides derive from the secret s: ssid, (c, m1, m2) for the Reveal Signature message,
+// (c', m1', m2') for the Signature message
+type craftedKeys struct {
+	ssid          []byte
+	c, m1, m2     []byte
+	c2, m1b, m2b  []byte
+}
+
+func craftedAkeKeys(s *big.Int) craftedKeys {
+	sec := otr3.AppendMPI(nil, s)
+	h := func(b byte) []byte {
+		x := sha256.Sum256(append([]byte{b}, sec...))
+		return x[:]
+	}
+	return craftedKeys{ssid: h(0)[:8], c: h(1)[:16], c2: h(1)[16:], m1: h(2), m2: h(3), m1b: h(4), m2b: h(5)}
+}
+
+// DH-Commit committing to the value gx
+func craftedCommit(version int, sender, receiver uint32, r []byte, gx *big.Int) []byte {
+	mpi := otr3.AppendMPI(nil, gx)
+	hash := sha256.Sum256(mpi)
+	body := otr3.AppendData(otr3.AppendData(akeHeader(version, 0x02, sender, receiver), aesCtrZero(r, mpi)), hash[:])
+	return encodeWire(body)
+}
+
+// Reveal Signature message revealing r, signed with test key `keyIdx`, all keys derived from s
+func craftedRevealSig(version int, sender, receiver uint32, r []byte, gx, gy, s *big.Int, keyIdx int, rnd *rand.Rand) []byte {
+	k := craftedAkeKeys(s)
+	pub := pubWire(keyIdx)
+	mb := hmac256(k.m1, otr3.AppendWord(append(otr3.AppendMPI(otr3.AppendMPI(nil, gx), gy), pub...), 1))
+	sig, err := testKeys[keyIdx].Sign(rnd, mb)
+	if err != nil {
+		panic(err)
+	}
+	xb := aesCtrZero(k.c, append(otr3.AppendWord(append([]byte{}, pub...), 1), sig...))
+	enc := otr3.AppendData(nil, xb)
+	body := append(otr3.AppendData(akeHeader(version, 0x11, sender, receiver), r), enc...)
+	return encodeWire(append(body, hmac256(k.m2, enc)[:20]...))
+}
+
+// sender instance tag and value of a DH-Key message
+func readDHKey(version int, m []byte) (tag uint32, gy *big.Int, ok bool) {
+	bin := decodeWire(m)
+	off := 3
+	if version == 3 {
+		off = 11
+	}
+	if len(bin) < off+4 || bin[0] != 0 || int(bin[1]) != version || bin[2] != 0x0a {
+		return 0, nil, false
+	}
+	if version == 3 {
+		tag = uint32(bin[3])<<24 | uint32(bin[4])<<16 | uint32(bin[5])<<8 | uint32(bin[6])
+	}
+	rest, gy, ok := otr3.ExtractMPI(bin[off:])
+	return tag, gy, ok && len(rest) == 0
+}
+
+// is m a Signature message whose MAC is the one of the keys derived from s?
+func isSignatureUnder(version int, m []byte, k craftedKeys) bool {
+	bin := decodeWire(m)
+	off := 3
+	if version == 3 {
+		off = 11
+	}
+	if len(bin) < off+4+20 || bin[2] != 0x12 {
+		return false
+	}
+	enc, mac := bin[off:len(bin)-20], bin[len(bin)-20:]
+	return hmac.Equal(hmac256(k.m2b, enc)[:20], mac)
+}
+
+// The hand-made initiator against a fresh victim and against a victim that is in a session with
+// somebody else, revealing in turn (random order) the values 0, 1, p-1, p, p+1 - which must be refused -
+// and 2, p-2, the smallest and the largest legal value - which must complete the exchange (M is a
+// legitimate peer with a key of its own; this also shows that M's messages are well-formed).
+func (g *gen) craftedInitiatorScenario(w *world, idx int) {
+	version := 2 + idx%2
+	established := (idx/2)%2 == 1
+	const mKey = 2
+	pBig := new(big.Int).SetBytes(groupP)
+	var v *party
+	var others []*party // the victim and the peer of its session, as long as that session is the one that must persist
+	var mTag uint32
+	if established {
+		n := g.newAkeNet(w, version)
+		n.run(nil)
+		if !n.a.c.IsEncrypted() || !n.b.c.IsEncrypted() || w.dead {
+			return
+		}
+		v = []*party{n.a, n.b}[g.r.Intn(2)]
+		others = n.all
+		w.tick(3600)
+		mTag = otr3.VerifSnapshot(v.c).TheirTag // under OTRv3 M has to speak as the instance v is bound to
+	} else {
+		w.parties = map[string]*party{}
+		w.dead = false
+		pol := 2
+		if version == 3 {
+			pol = 4
+		}
+		v = w.newParty(partyCfg{policies: pol, keyIdx: 0, errh: true})
+		others = []*party{v}
+	}
+	if version == 3 && mTag == 0 {
+		mTag = uint32(0x100 + g.r.Intn(0x7fffff00))
+	}
+	g.dist[fmt.Sprintf("ake:crafted-initiator:OTRv%d:established=%v", version, established)]++
+	signRnd := rand.New(rand.NewSource(g.r.Int63()))
+	type val struct {
+		name  string
+		gx    *big.Int
+		legal bool
+	}
+	d := func(k int64) *big.Int { return new(big.Int).Add(pBig, big.NewInt(k)) }
+	vals := []val{{"0", big.NewInt(0), false}, {"1", big.NewInt(1), false}, {"p-1", d(-1), false}, {"p", d(0), false}, {"p+1", d(1), false},
+		{"2", big.NewInt(2), true}, {"p-2", d(-2), true}}
+	g.r.Shuffle(len(vals), func(i, j int) { vals[i], vals[j] = vals[j], vals[i] })
+	state := "fresh"
+	if established {
+		state = "in a session with somebody else"
+	}
+	for _, x := range vals {
+		if w.dead {
+			return
+		}
+		r := g.bytesN(16)
+		_, ts, _, pan := w.recv(v, craftedCommit(version, mTag, 0, r, x.gx))
+		if pan {
+			olog.viol("C13", "receive-panics", fmt.Sprintf("Receive panicked on a hand-made DH-Commit for g^x = %s", x.name))
+			return
+		}
+		var vTag uint32
+		var gy *big.Int
+		for _, t := range ts {
+			if tag, y, ok := readDHKey(version, t); ok {
+				vTag, gy = tag, y
+			}
+		}
+		olog.ok("C01")
+		if gy == nil {
+			// (nothing about g^x can be checked yet: a DH-Commit is always answered)
+			olog.viol("C01", "honest-exchange-fails", fmt.Sprintf("OTRv%d, victim %s: a hand-made DH-Commit (for g^x = %s) was not answered with a DH-Key message", version, state, x.name))
+			continue
+		}
+		// (g^x)^y for the unknown y of the victim: g^x is 0, 1, -1, 2 or -2 modulo p, and 2 is the generator
+		var cands []*big.Int
+		switch red := new(big.Int).Mod(x.gx, pBig); {
+		case red.Sign() == 0:
+			cands = []*big.Int{big.NewInt(0)}
+		case red.Cmp(big.NewInt(1)) == 0:
+			cands = []*big.Int{big.NewInt(1)}
+		case red.Cmp(d(-1)) == 0:
+			cands = []*big.Int{big.NewInt(1), d(-1)}
+		case red.Cmp(big.NewInt(2)) == 0:
+			cands = []*big.Int{gy}
+		default:
+			cands = []*big.Int{gy, new(big.Int).Sub(pBig, gy)}
+		}
+		if g.r.Intn(2) == 0 && len(cands) == 2 {
+			cands[0], cands[1] = cands[1], cands[0]
+		}
+		accepted := false
+		for _, s := range cands {
+			wasEnc, ssidBefore := v.c.IsEncrypted(), v.c.GetSSID()
+			_, ts, _, pan := w.recv(v, craftedRevealSig(version, mTag, vTag, r, x.gx, gy, s, mKey, signRnd))
+			if pan {
+				olog.viol("C13", "receive-panics", fmt.Sprintf("Receive panicked on a hand-made Reveal Signature message for g^x = %s", x.name))
+				return
+			}
+			k := craftedAkeKeys(s)
+			accepted = v.c.IsEncrypted() && (!wasEnc || v.c.GetSSID() != ssidBefore)
+			if !x.legal {
+				olog.ok("C01")
+				if accepted {
+					fp := []byte{}
+					if tk := v.c.GetTheirKey(); tk != nil {
+						fp = tk.Fingerprint()
+					}
+					olog.viol("C01", "degenerate-dh-value-accepted", fmt.Sprintf("OTRv%d, victim %s: after a DH-Commit committing to g^x = %s (%x) and a Reveal Signature message revealing it, signed by the sender's own key and keyed with s = %x, the victim reports itself encrypted (session id %x, peer fingerprint %x): the session secret is known to everybody", version, state, x.name, x.gx.Bytes(), s.Bytes(), v.c.GetSSID(), fp))
+				}
+			} else if accepted {
+				// M is a genuine peer here: what the victim reports must be M's key and the session of this exchange
+				ssid := v.c.GetSSID()
+				tk := v.c.GetTheirKey()
+				if tk == nil || !bytes.Equal(tk.Fingerprint(), testKeys[mKey].PublicKey().Fingerprint()) {
+					olog.viol("C01", "unknown-peer-key", fmt.Sprintf("OTRv%d, victim %s: after a complete exchange with a hand-made initiator (g^x = %s) the victim does not report the initiator's key", version, state, x.name))
+				}
+				if !bytes.Equal(ssid[:], k.ssid) {
+					olog.viol("C01", "ssid-differs", fmt.Sprintf("OTRv%d, victim %s: after a complete exchange with a hand-made initiator (g^x = %s) the victim reports session id %x, the initiator derives %x", version, state, x.name, ssid, k.ssid))
+				}
+				answered := false
+				for _, t := range ts {
+					answered = answered || isSignatureUnder(version, t, k)
+				}
+				if !answered {
+					olog.viol("C01", "honest-exchange-fails", fmt.Sprintf("OTRv%d, victim %s: the victim accepted the Reveal Signature message of a hand-made initiator (g^x = %s) but did not answer with a Signature message authenticated with the keys of the exchange", version, state, x.name))
+				}
+			}
+			if accepted {
+				others = nil // the session with M has replaced whatever the victim was in
+				break
+			}
+			if others != nil {
+				g.c01check(w, others, fmt.Sprintf("after a refused hand-made Reveal Signature message (g^x = %s)", x.name))
+			}
+		}
+		if x.legal {
+			olog.ok("C01")
+			if !accepted {
+				olog.viol("C01", "honest-exchange-fails", fmt.Sprintf("OTRv%d, victim %s: a hand-made but correct exchange with g^x = %s (a legal value) did not complete", version, state, x.name))
+			}
+		}
+	}
+}
+
 func init() {
 	profiles["ake"] = func(seed int64, n int, out *emitter, extra map[string]interface{}) map[string]int {
 		g := &gen{r: rand.New(rand.NewSource(seed)), out: out, dist: map[string]int{}}
@@ -716,6 +968,10 @@ func init() {
 			}
 			if i%12 == 10 {
 				g.thirdPartyUnderFailure(w, i/12)
+				continue
+			}
+			if i%12 == 4 {
+				g.craftedInitiatorScenario(w, i/12)
 				continue
 			}
 			if rec := g.akeScenario(w, recorded); rec != nil && len(rec) >= 4 {
